@@ -34,6 +34,10 @@ pub struct OracleView {
     /// venue-backed banks: bound on |program's exchange-rate-adjusted price - exact adjusted
     /// price| for (spot price, spot conf, ema price, ema conf); zero for plain banks
     pub adj_err: Q,
+    /// the part of `adj_err` of the spot price that comes from the program's fixed-point
+    /// exchange ratio alone (without the final truncation to the integer mantissa, which only
+    /// ever lowers the result)
+    pub adj_ratio_err: Q,
 }
 
 #[derive(Clone, Debug, PartialEq, Eq)]
@@ -75,6 +79,7 @@ pub fn read_oracle(store: &Store, bank: &Bank, clock: SimClock) -> Result<Oracle
                 spot: pp.clone(),
                 ema: pp,
                 adj_err: Q::zero(),
+                adj_ratio_err: Q::zero(),
             })
         }
         OracleSetup::StakedWithPythPush => {
@@ -131,6 +136,7 @@ pub fn read_oracle(store: &Store, bank: &Bank, clock: SimClock) -> Result<Oracle
                     conf_raw: scale(p.ema_conf as i128, p.exponent),
                 },
                 adj_err: Q::zero(),
+                adj_ratio_err: Q::zero(),
             })
         }
         OracleSetup::PythPushOracle => {
@@ -166,6 +172,7 @@ pub fn read_oracle(store: &Store, bank: &Bank, clock: SimClock) -> Result<Oracle
                     conf_raw: scale(p.ema_conf as i128, p.exponent),
                 },
                 adj_err: Q::zero(),
+                adj_ratio_err: Q::zero(),
             })
         }
         OracleSetup::SwitchboardPull => {
@@ -191,6 +198,7 @@ pub fn read_oracle(store: &Store, bank: &Bank, clock: SimClock) -> Result<Oracle
                 spot: pp.clone(),
                 ema: pp,
                 adj_err: Q::zero(),
+                adj_ratio_err: Q::zero(),
             })
         }
         OracleSetup::KaminoPythPush | OracleSetup::SolendPythPull | OracleSetup::DriftPythPull => {
@@ -248,6 +256,7 @@ pub fn read_oracle(store: &Store, bank: &Bank, clock: SimClock) -> Result<Oracle
                     conf_raw: scale(&ec, p.exponent),
                 },
                 adj_err: scale(&emax, p.exponent),
+                adj_ratio_err: if vr.rate.is_some() { scale(&(qi((p.price as i128).abs()) * &vr.d_r), p.exponent) } else { Q::zero() },
             })
         }
         OracleSetup::KaminoSwitchboardPull | OracleSetup::SolendSwitchboardPull | OracleSetup::DriftSwitchboardPull => {
@@ -287,6 +296,7 @@ pub fn read_oracle(store: &Store, bank: &Bank, clock: SimClock) -> Result<Oracle
                 spot: pp.clone(),
                 ema: pp,
                 adj_err: (model::q_max(ev, es * qr(196, 100))) / pow10(18),
+                adj_ratio_err: if vr.rate.is_some() { qi(s.value).abs() * &vr.d_r / pow10(18) } else { Q::zero() },
             })
         }
         _ => Err(OracleBad::Unsupported),
